@@ -6,7 +6,7 @@ import ScnVerif.Model.Cif.Builder
 The compositional device is `Piece t toks`: read from the start of a line, the text `t` yields exactly
 the tokens `toks` and leaves the reader at the start of a line.  Every unit the writer emits (comment,
 pair, chunk, loop, block heading, block, file heading, file) is a `Piece`, and pieces compose by
-concatenation.  All statements are about the *repaired* writer (`Variant.fixed`).
+concatenation.  All statements are about the *repaired* writer (`Variant.current`).
 No Mathlib; induction over character lists throughout.
 -/
 namespace ScnVerif.Cif
@@ -306,12 +306,12 @@ theorem writePair_eq (var : Variant) (k raw : Str) : writePair var (k, raw) =
     else [95] ++ k ++ [32] ++ formatValue var raw ++ [10] := rfl
 
 theorem piece_pair (k raw : Str) (hk : TagOk k) (hv : ValueOk (encodeNonAscii raw)) :
-    Piece (writePair Variant.fixed (k, raw)) [.tag k, valueTok raw] := by
+    Piece (writePair Variant.current (k, raw)) [.tag k, valueTok raw] := by
   intro out
   rw [writePair_eq]
   split
   · rename_i h
-    simp only [formatValue, Variant.fixed] at h ⊢
+    simp only [formatValue, Variant.current] at h ⊢
     have ht := (head_wrap_text _).mp h
     rw [show [95] ++ k ++ [10] ++ wrap (quotesFor true (encodeNonAscii raw)) (encodeNonAscii raw) ++ [10]
         = ([95] ++ k ++ [10]) ++ (wrap (quotesFor true (encodeNonAscii raw)) (encodeNonAscii raw) ++ [10]) by simp,
@@ -319,7 +319,7 @@ theorem piece_pair (k raw : Str) (hk : TagOk k) (hv : ValueOk (encodeNonAscii ra
       fmt_run _ hv.1 hv.2 _ (fun _ => by decide) 10 (by decide)]
     simp [valueTok, isEol]
   · rename_i h
-    simp only [formatValue, Variant.fixed] at h ⊢
+    simp only [formatValue, Variant.current] at h ⊢
     have ht : quotesFor true (encodeNonAscii raw) ≠ .text := fun e => h ((head_wrap_text _).mpr e)
     rw [show [95] ++ k ++ [32] ++ wrap (quotesFor true (encodeNonAscii raw)) (encodeNonAscii raw) ++ [10]
         = ([95] ++ k ++ [32]) ++ (wrap (quotesFor true (encodeNonAscii raw)) (encodeNonAscii raw) ++ [10]) by simp,
@@ -331,10 +331,10 @@ def ChunkOk (c : Chunk) : Prop := ∀ kv ∈ c.pairs, TagOk kv.1 ∧ ValueOk (en
 
 def chunkToks (c : Chunk) : List Tok := c.pairs.flatMap (fun kv => [.tag kv.1, valueTok kv.2])
 
-theorem piece_chunk (c : Chunk) (h : ChunkOk c) : Piece (c.write Variant.fixed) (chunkToks c) := by
+theorem piece_chunk (c : Chunk) (h : ChunkOk c) : Piece (c.write Variant.current) (chunkToks c) := by
   unfold Chunk.write chunkToks
   have := (piece_comment (encodeNonAscii c.comment)).append
-    (Piece.flatMap (writePair Variant.fixed) (fun kv => [.tag kv.1, valueTok kv.2]) c.pairs
+    (Piece.flatMap (writePair Variant.current) (fun kv => [.tag kv.1, valueTok kv.2]) c.pairs
       (fun kv hkv => piece_pair kv.1 kv.2 (h kv hkv).1 (h kv hkv).2))
   simpa using this
 
@@ -344,7 +344,7 @@ theorem piece_chunk (c : Chunk) (h : ChunkOk c) : Piece (c.write Variant.fixed) 
 /-- formatted (already escaped) value -/
 def fmtE (s : Str) : Str := wrap (quotesFor true s) s
 
-theorem formatValue_fixed (raw : Str) : formatValue Variant.fixed raw = fmtE (encodeNonAscii raw) := rfl
+theorem formatValue_fixed (raw : Str) : formatValue Variant.current raw = fmtE (encodeNonAscii raw) := rfl
 
 theorem joinWith_cons_cons (sep x y : Str) (rest : List Str) :
     joinWith sep (x :: y :: rest) = x ++ sep ++ joinWith sep (y :: rest) := rfl
@@ -424,10 +424,10 @@ def loopToks (l : Loop) : List Tok :=
 theorem contains59_of_text {s : Str} (h : quotesFor true s = .text) : (fmtE s).contains 59 = true := by
   simp [fmtE, h, wrap]
 
-theorem piece_loop (l : Loop) (h : LoopOk l) : Piece (l.write Variant.fixed) (loopToks l) := by
+theorem piece_loop (l : Loop) (h : LoopOk l) : Piece (l.write Variant.current) (loopToks l) := by
   -- encoded rows
   let E : List (List Str) := (rowsOf l.nrows (l.columns.map (·.2))).map (·.map encodeNonAscii)
-  have hE : l.formattedRows Variant.fixed = E.map (·.map fmtE) := by
+  have hE : l.formattedRows Variant.current = E.map (·.map fmtE) := by
     simp [Loop.formattedRows, E, formatValue_fixed, Function.comp_def]
   have hok : ∀ row ∈ E, ∀ s ∈ row, ValueOk s := by
     intro row hrow s hs
@@ -502,7 +502,7 @@ def itemToks : Item → List Tok
   | .chunk c => chunkToks c
   | .loop l => loopToks l
 
-theorem piece_item (it : Item) (h : ItemOk it) : Piece (it.write Variant.fixed) (itemToks it) := by
+theorem piece_item (it : Item) (h : ItemOk it) : Piece (it.write Variant.current) (itemToks it) := by
   cases it with
   | chunk c => exact piece_chunk c h
   | loop l => exact piece_loop l h
@@ -561,8 +561,8 @@ theorem schemaLoop_ok (ordered : List Schema) (h : ∀ s ∈ ordered, SchemaOk s
         simp only [List.mem_map] at hv; obtain ⟨s, hs, rfl⟩ := hv; exact (h s hs).2.2⟩
 
 theorem piece_block (ordered : List Schema) (b : Block) (h : BlockOk ordered b) :
-    Piece (b.writeWith Variant.fixed ordered) (blockToks ordered b) := by
-  have hitems := piece_joinWith_nl (Item.write Variant.fixed) itemToks b.content
+    Piece (b.writeWith Variant.current ordered) (blockToks ordered b) := by
+  have hitems := piece_joinWith_nl (Item.write Variant.current) itemToks b.content
     (fun it hit => piece_item it (h.items it hit))
   have hhead := (piece_comment (encodeNonAscii b.comment)).append (piece_dataline _ h.name)
   unfold Block.writeWith blockToks writeMulti schemaToks
@@ -581,20 +581,20 @@ theorem piece_magic : Piece [35, 92, 35, 67, 73, 70, 95, 49, 46, 49, 10] [] := b
     run_append, run_comment out _ (by decide)]
   simp [run_cons, run_nil, step, isEol]
 
-theorem piece_heading (comment : Str) : Piece (fileHeading Variant.fixed comment) [] := by
+theorem piece_heading (comment : Str) : Piece (fileHeading Variant.current comment) [] := by
   have := piece_magic.append (piece_comment (encodeNonAscii comment))
-  simpa [fileHeading, Variant.fixed] using this
+  simpa [fileHeading, Variant.current] using this
 
 /-- a whole file: heading and blocks, each with the order in which its schema set is listed -/
 def docText (comment : Str) (blocks : List (List Schema × Block)) : Str :=
-  fileHeading Variant.fixed comment ++ writeMulti (blocks.map (fun ob => ob.2.writeWith Variant.fixed ob.1))
+  fileHeading Variant.current comment ++ writeMulti (blocks.map (fun ob => ob.2.writeWith Variant.current ob.1))
 
 def docToks (blocks : List (List Schema × Block)) : List Tok := blocks.flatMap (fun ob => blockToks ob.1 ob.2)
 
 theorem piece_doc (comment : Str) (blocks : List (List Schema × Block)) (h : ∀ ob ∈ blocks, BlockOk ob.1 ob.2) :
     Piece (docText comment blocks) (docToks blocks) := by
   have := (piece_heading comment).append
-    (piece_joinWith_nl (fun ob : List Schema × Block => ob.2.writeWith Variant.fixed ob.1)
+    (piece_joinWith_nl (fun ob : List Schema × Block => ob.2.writeWith Variant.current ob.1)
       (fun ob => blockToks ob.1 ob.2) blocks (fun ob hob => piece_block ob.1 ob.2 (h ob hob)))
   simpa [docText, docToks, writeMulti] using this
 
@@ -749,7 +749,7 @@ theorem ascii_doc (comment : Str) (blocks : List (List Schema × Block))
       simp only [List.mem_map] at hx
       obtain ⟨ob, hob, rfl⟩ := hx
       exact ascii_block _ ob.1 ob.2 (hk ob hob)))
-  simp only [Variant.fixed, if_true]
+  simp only [Variant.current, if_true]
   exact ascii_encode _
 
 
@@ -1107,15 +1107,15 @@ def orderedOf (core : Schema) (b : Block) (perm : List Nat) : List Schema :=
 
 /-- the executable `save_cif` of the model, whenever it produces a text, produces `docText` -/
 theorem saveCif_docText (core : Schema) (comment : Str) (blocks : List (Block × List Nat)) (t : Str)
-    (h : saveCif Variant.fixed core comment blocks = some t) :
+    (h : saveCif Variant.current core comment blocks = some t) :
     t = docText comment (blocks.map (fun bp => (orderedOf core bp.1 bp.2, bp.1))) := by
   unfold saveCif at h
-  cases hm : blocks.mapM (fun bp => bp.1.write Variant.fixed core bp.2) with
+  cases hm : blocks.mapM (fun bp => bp.1.write Variant.current core bp.2) with
   | none => simp [hm] at h
   | some texts =>
     simp [hm] at h
     subst h
-    have := mapM_some_eq _ blocks texts hm (fun bp => bp.1.writeWith Variant.fixed (orderedOf core bp.1 bp.2))
+    have := mapM_some_eq _ blocks texts hm (fun bp => bp.1.writeWith Variant.current (orderedOf core bp.1 bp.2))
       (by
         intro bp _ y hy
         simp only [Block.write] at hy
@@ -1240,44 +1240,87 @@ theorem nameOk_of_check (b : Block) (h : b.nameOk = true) (hne : b.name ≠ []) 
 
 
 
-/-! ## only characters of the CIF 1.1 character set are written -/
+/-! ## character sets: only characters of a given set are written
 
-/-- all characters are printable ASCII, HT, LF or CR -/
-def Valid (t : Str) : Prop := ∀ c ∈ t, validChar c = true
-instance (t : Str) : Decidable (Valid t) := by unfold Valid; infer_instance
+Generic in the character predicate `P`; used at `validChar` (the CIF 1.1 character set, for the
+complete reader) and at `printableNl` (printable ASCII, tab, newline — no carriage return). -/
 
-/-- the domain of supplied text: printable ASCII, tab, newline (and CR), or any non-ASCII code point -/
-def Dom (t : Str) : Prop := ∀ c ∈ t, validChar c = true ∨ 128 ≤ c
-instance (t : Str) : Decidable (Dom t) := by unfold Dom; infer_instance
+/-- every character satisfies `P` -/
+def All (P : Nat → Bool) (t : Str) : Prop := ∀ c ∈ t, P c = true
+instance (P : Nat → Bool) (t : Str) : Decidable (All P t) := by unfold All; infer_instance
 
-theorem Valid.nil : Valid [] := by simp [Valid]
-theorem Valid.append {a b : Str} (ha : Valid a) (hb : Valid b) : Valid (a ++ b) := by
+/-- supplied text: characters satisfying `P`, or any non-ASCII code point (which gets escaped) -/
+def DomP (P : Nat → Bool) (t : Str) : Prop := ∀ c ∈ t, P c = true ∨ 128 ≤ c
+instance (P : Nat → Bool) (t : Str) : Decidable (DomP P t) := by unfold DomP; infer_instance
+
+/-- supplied *comment* text: as `DomP`, and any line terminator of `str.splitlines` (CR, VT, FF, FS, GS,
+RS, …) as well, because `_write_comment` splits at them and does not write them -/
+def DomC (P : Nat → Bool) (t : Str) : Prop := ∀ c ∈ t, P c = true ∨ 128 ≤ c ∨ isLineBreak c = true
+instance (P : Nat → Bool) (t : Str) : Decidable (DomC P t) := by unfold DomC; infer_instance
+
+theorem DomP.toC {P : Nat → Bool} {t : Str} (h : DomP P t) : DomC P t :=
+  fun c hc => (h c hc).elim Or.inl (fun h' => Or.inr (Or.inl h'))
+
+/-- `P` accepts printable ASCII and the newline, i.e. everything the writer emits by itself -/
+def AcceptsPrintable (P : Nat → Bool) : Prop := ∀ c, ((32 ≤ c ∧ c ≤ 126) ∨ c = 10) → P c = true
+
+def Printable10 (t : Str) : Prop := ∀ c ∈ t, (32 ≤ c ∧ c ≤ 126) ∨ c = 10
+instance (t : Str) : Decidable (Printable10 t) := by unfold Printable10; infer_instance
+
+/-- printable ASCII, tab or newline -/
+def printableNl (c : Nat) : Bool := (32 ≤ c && c ≤ 126) || c == 9 || c == 10
+
+theorem acceptsPrintable_validChar : AcceptsPrintable validChar := by
+  intro c h; simp only [validChar, Bool.or_eq_true, Bool.and_eq_true, decide_eq_true_eq, beq_iff_eq]
+  rcases h with h | h
+  · exact Or.inl (Or.inl (Or.inl h))
+  · exact Or.inl (Or.inr h)
+
+theorem acceptsPrintable_printableNl : AcceptsPrintable printableNl := by
+  intro c h; simp only [printableNl, Bool.or_eq_true, Bool.and_eq_true, decide_eq_true_eq, beq_iff_eq]
+  rcases h with h | h
+  · exact Or.inl (Or.inl h)
+  · exact Or.inr h
+
+section CharSet
+variable {P : Nat → Bool} (hP : AcceptsPrintable P)
+include hP
+
+theorem All.lit {t : Str} (h : Printable10 t) : All P t := fun c hc => hP c (h c hc)
+
+omit hP in
+theorem All.nil : All P [] := by simp [All]
+omit hP in
+theorem All.append {a b : Str} (ha : All P a) (hb : All P b) : All P (a ++ b) := by
   intro c hc; rcases List.mem_append.mp hc with h | h
   · exact ha c h
   · exact hb c h
-theorem Valid.flatMap {α : Type} (f : α → Str) (l : List α) (h : ∀ x ∈ l, Valid (f x)) : Valid (l.flatMap f) := by
+omit hP in
+theorem All.flatMap {α : Type} (f : α → Str) (l : List α) (h : ∀ x ∈ l, All P (f x)) : All P (l.flatMap f) := by
   intro c hc; obtain ⟨x, hx, hcx⟩ := List.mem_flatMap.mp hc; exact h x hx c hcx
-theorem Valid.joinWith {sep : Str} (hs : Valid sep) (l : List Str) (h : ∀ x ∈ l, Valid x) : Valid (joinWith sep l) := by
+omit hP in
+theorem All.joinWith {sep : Str} (hs : All P sep) (l : List Str) (h : ∀ x ∈ l, All P x) : All P (joinWith sep l) := by
   match l with
-  | [] => exact Valid.nil
+  | [] => exact All.nil
   | [x] => exact h x (by simp)
   | x :: y :: rest =>
     rw [joinWith_cons_cons]
-    exact ((h x (by simp)).append hs).append (Valid.joinWith hs (y :: rest) (fun z hz => h z (by simp [hz])))
+    exact ((h x (by simp)).append hs).append (All.joinWith hs (y :: rest) (fun z hz => h z (by simp [hz])))
 
-theorem hexNib_valid (n : Nat) (h : n < 16) : validChar (hexNib n) = true := by
-  have : ∀ m, m < 16 → validChar (hexNib m) = true := by decide
-  exact this n h
+theorem hexNib_all (n : Nat) (h : n < 16) : P (hexNib n) = true := by
+  apply hP
+  have : ∀ m, m < 16 → (32 ≤ hexNib m ∧ hexNib m ≤ 126) := by decide
+  exact Or.inl (this n h)
 
-theorem valid_hexFixed (w n : Nat) : Valid (hexFixed w n) := by
+theorem all_hexFixed (w n : Nat) : All P (hexFixed w n) := by
   induction w generalizing n with
-  | zero => exact Valid.nil
+  | zero => exact All.nil
   | succ w ih =>
     unfold hexFixed
     exact (ih _).append (fun c hc => by
-      simp at hc; subst hc; exact hexNib_valid _ (Nat.mod_lt _ (by decide)))
+      simp at hc; subst hc; exact hexNib_all hP _ (Nat.mod_lt _ (by decide)))
 
-theorem valid_encodeChar (c : Nat) (h : validChar c = true ∨ 128 ≤ c) : Valid (encodeChar c) := by
+theorem all_encodeChar (c : Nat) (h : P c = true ∨ 128 ≤ c) : All P (encodeChar c) := by
   unfold encodeChar
   split
   · rename_i hlt
@@ -1285,56 +1328,98 @@ theorem valid_encodeChar (c : Nat) (h : validChar c = true ∨ 128 ≤ c) : Vali
     · intro d hd; simp at hd; subst hd; exact h
     · omega
   · split
-    · exact Valid.append (by decide) (valid_hexFixed _ _)
+    · exact All.append (All.lit hP (by decide)) (all_hexFixed hP _ _)
     · split
-      · exact Valid.append (by decide) (valid_hexFixed _ _)
-      · exact Valid.append (by decide) (valid_hexFixed _ _)
+      · exact All.append (All.lit hP (by decide)) (all_hexFixed hP _ _)
+      · exact All.append (All.lit hP (by decide)) (all_hexFixed hP _ _)
 
-theorem valid_encode (s : Str) (h : Dom s) : Valid (encodeNonAscii s) :=
-  Valid.flatMap _ _ (fun c hc => valid_encodeChar c (h c hc))
+theorem all_encode (s : Str) (h : DomP P s) : All P (encodeNonAscii s) :=
+  All.flatMap _ _ (fun c hc => all_encodeChar hP c (h c hc))
 
-theorem valid_wrap (q : Quote) (s : Str) (h : Valid s) : Valid (wrap q s) := by
+theorem all_wrap (q : Quote) (s : Str) (h : All P s) : All P (wrap q s) := by
   cases q <;> simp only [wrap]
   · exact h
-  · exact ((show Valid [39] by decide).append h).append (by decide)
-  · exact ((show Valid [34] by decide).append h).append (by decide)
-  · exact ((show Valid [59, 32] by decide).append h).append (by decide)
+  · exact ((All.lit hP (t := [39]) (by decide)).append h).append (All.lit hP (by decide))
+  · exact ((All.lit hP (t := [34]) (by decide)).append h).append (All.lit hP (by decide))
+  · exact ((All.lit hP (t := [59, 32]) (by decide)).append h).append (All.lit hP (by decide))
 
-theorem valid_formatValue (var : Variant) (raw : Str) (h : Dom raw) : Valid (formatValue var raw) :=
-  valid_wrap _ _ (valid_encode raw h)
+/-- every formatted value — whichever container it came from: a plain `str`, a scalar Variable, an
+element of a loop column — consists of characters of `P` only: non-ASCII text is escaped first -/
+theorem all_formatValue (var : Variant) (raw : Str) (h : DomP P raw) : All P (formatValue var raw) :=
+  all_wrap hP _ _ (all_encode hP raw h)
 
-theorem valid_writeComment (c : Str) (h : Valid c) : Valid (writeComment c) := by
+theorem all_writeComment (c : Str) (h : ∀ ch ∈ c, P ch = true ∨ isLineBreak ch = true) : All P (writeComment c) := by
   unfold writeComment; split
-  · exact Valid.nil
-  · refine ((show Valid [35, 32] by decide).append (Valid.joinWith (by decide) _ ?_)).append (by decide)
+  · exact All.nil
+  · refine ((All.lit hP (t := [35, 32]) (by decide)).append (All.joinWith (All.lit hP (by decide)) _ ?_)).append
+      (All.lit hP (by decide))
     intro l hl d hd
+    have hnb := splitLinesAux_no_break c [] (by simp) l hl d hd
     rcases splitLinesAux_mem c [] l hl d hd with h' | h'
-    · exact h d h'
+    · rcases h d h' with hp | hb
+      · exact hp
+      · rw [hnb] at hb; cases hb
     · simp at h'
 
-theorem valid_writePair (var : Variant) (k raw : Str) (hk : Valid k) (hv : Dom raw) : Valid (writePair var (k, raw)) := by
+theorem encode_mem_or_break (s : Str) (h : DomC P s) :
+    ∀ ch ∈ encodeNonAscii s, P ch = true ∨ isLineBreak ch = true := by
+  intro ch hch
+  simp only [encodeNonAscii, List.mem_flatMap] at hch
+  obtain ⟨c, hc, hcc⟩ := hch
+  by_cases h128 : c < 128
+  · simp only [encodeChar, h128, if_true, List.mem_singleton] at hcc
+    subst hcc
+    rcases h ch hc with h1 | h1 | h1
+    · exact Or.inl h1
+    · omega
+    · exact Or.inr h1
+  · exact Or.inl (all_encodeChar hP c (Or.inr (by omega)) ch hcc)
+
+/-- a written comment consists of characters of `P` only, whatever line terminators the comment has -/
+theorem all_comment (c : Str) (h : DomC P c) : All P (writeComment (encodeNonAscii c)) :=
+  all_writeComment hP _ (encode_mem_or_break hP c h)
+
+theorem all_writePair (var : Variant) (k raw : Str) (hk : All P k) (hv : DomP P raw) : All P (writePair var (k, raw)) := by
   rw [writePair_eq]; split
-  · exact ((((show Valid [95] by decide).append hk).append (show Valid [10] by decide)).append
-      (valid_formatValue var raw hv)).append (by decide)
-  · exact ((((show Valid [95] by decide).append hk).append (show Valid [32] by decide)).append
-      (valid_formatValue var raw hv)).append (by decide)
+  · exact ((((All.lit hP (t := [95]) (by decide)).append hk).append (All.lit hP (t := [10]) (by decide))).append
+      (all_formatValue hP var raw hv)).append (All.lit hP (by decide))
+  · exact ((((All.lit hP (t := [95]) (by decide)).append hk).append (All.lit hP (t := [32]) (by decide))).append
+      (all_formatValue hP var raw hv)).append (All.lit hP (by decide))
 
-def ChunkDom (c : Chunk) : Prop := Dom c.comment ∧ ∀ kv ∈ c.pairs, Valid kv.1 ∧ Dom kv.2
-def LoopDom (l : Loop) : Prop := Dom l.comment ∧ ∀ c ∈ l.columns, Valid c.1 ∧ ∀ v ∈ c.2, Dom v
-def ItemDom : Item → Prop
-  | .chunk c => ChunkDom c
-  | .loop l => LoopDom l
+end CharSet
 
-theorem valid_chunk (var : Variant) (c : Chunk) (h : ChunkDom c) : Valid (c.write var) :=
-  (valid_writeComment _ (valid_encode _ h.1)).append
-    (Valid.flatMap _ _ (fun kv hkv => valid_writePair var kv.1 kv.2 (h.2 kv hkv).1 (h.2 kv hkv).2))
+def ChunkDomP (P : Nat → Bool) (c : Chunk) : Prop := DomC P c.comment ∧ ∀ kv ∈ c.pairs, All P kv.1 ∧ DomP P kv.2
+def LoopDomP (P : Nat → Bool) (l : Loop) : Prop :=
+  DomC P l.comment ∧ ∀ c ∈ l.columns, All P c.1 ∧ ∀ v ∈ c.2, DomP P v
+def ItemDomP (P : Nat → Bool) : Item → Prop
+  | .chunk c => ChunkDomP P c
+  | .loop l => LoopDomP P l
+def SchemaDomP (P : Nat → Bool) (s : Schema) : Prop := DomP P s.name ∧ DomP P s.version ∧ DomP P s.location
 
-theorem valid_loop (var : Variant) (l : Loop) (h : LoopDom l) : Valid (l.write var) := by
+structure BlockDomP (P : Nat → Bool) (ordered : List Schema) (b : Block) : Prop where
+  name : DomP P b.name
+  comment : DomC P b.comment
+  items : ∀ it ∈ b.content, ItemDomP P it
+  schemas : ∀ s ∈ ordered, SchemaDomP P s
+
+section CharSet2
+variable {P : Nat → Bool} (hP : AcceptsPrintable P)
+include hP
+
+theorem all_chunk (var : Variant) (c : Chunk) (h : ChunkDomP P c) : All P (c.write var) :=
+  (all_comment hP _ h.1).append
+    (All.flatMap _ _ (fun kv hkv => all_writePair hP var kv.1 kv.2 (h.2 kv hkv).1 (h.2 kv hkv).2))
+
+/-- loops: every element of every column goes through `formatValue`, so it is escaped -/
+theorem all_loop (var : Variant) (l : Loop) (h : LoopDomP P l) : All P (l.write var) := by
   unfold Loop.write
-  refine (((valid_writeComment _ (valid_encode _ h.1)).append (by decide)).append
-    (Valid.flatMap _ _ (fun c hc => ((show Valid [95] by decide).append (h.2 c hc).1).append (by decide)))).append
-    (Valid.flatMap _ _ (fun row hrow => Valid.append (Valid.joinWith ?_ row ?_) (by decide)))
-  · split <;> decide
+  refine (((all_comment hP _ h.1).append (All.lit hP (by decide))).append
+    (All.flatMap _ _ (fun c hc => ((All.lit hP (t := [95]) (by decide)).append (h.2 c hc).1).append
+      (All.lit hP (by decide))))).append
+    (All.flatMap _ _ (fun row hrow => All.append (All.joinWith ?_ row ?_) (All.lit hP (by decide))))
+  · split
+    · exact All.lit hP (by decide)
+    · exact All.lit hP (by decide)
   · intro x hx
     simp only [Loop.formattedRows, List.mem_map] at hrow
     obtain ⟨r, hr, rfl⟩ := hrow
@@ -1343,62 +1428,70 @@ theorem valid_loop (var : Variant) (l : Loop) (h : LoopDom l) : Valid (l.write v
     obtain ⟨col, hcol, hvc⟩ := mem_rowsOf _ _ r v hr hv
     simp only [List.mem_map] at hcol
     obtain ⟨c, hc, rfl⟩ := hcol
-    exact valid_formatValue var v ((h.2 c hc).2 v hvc)
+    exact all_formatValue hP var v ((h.2 c hc).2 v hvc)
 
-theorem valid_item (var : Variant) (it : Item) (h : ItemDom it) : Valid (it.write var) := by
+theorem all_item (var : Variant) (it : Item) (h : ItemDomP P it) : All P (it.write var) := by
   cases it with
-  | chunk c => exact valid_chunk var c h
-  | loop l => exact valid_loop var l h
+  | chunk c => exact all_chunk hP var c h
+  | loop l => exact all_loop hP var l h
 
-def SchemaDom (s : Schema) : Prop := Dom s.name ∧ Dom s.version ∧ Dom s.location
-
-structure BlockDom (ordered : List Schema) (b : Block) : Prop where
-  name : Dom b.name
-  comment : Dom b.comment
-  items : ∀ it ∈ b.content, ItemDom it
-  schemas : ∀ s ∈ ordered, SchemaDom s
-
-theorem valid_block (var : Variant) (ordered : List Schema) (b : Block) (h : BlockDom ordered b) :
-    Valid (b.writeWith var ordered) := by
+theorem all_block (var : Variant) (ordered : List Schema) (b : Block) (h : BlockDomP P ordered b) :
+    All P (b.writeWith var ordered) := by
   unfold Block.writeWith
-  refine ((((valid_writeComment _ (valid_encode _ h.comment)).append (by decide)).append
-    (valid_encode _ h.name)).append (by decide)).append ?_ |>.append ?_
+  refine ((((all_comment hP _ h.comment).append (All.lit hP (by decide))).append
+    (all_encode hP _ h.name)).append (All.lit hP (by decide))).append ?_ |>.append ?_
   · cases hl : schemaLoop ordered with
-    | none => exact Valid.nil
+    | none => exact All.nil
     | some l =>
-      refine (valid_loop var l ?_).append (by decide)
+      refine (all_loop hP var l ?_).append (All.lit hP (by decide))
       unfold schemaLoop at hl
       split at hl
       · simp at hl
       · simp only [Option.some.injEq] at hl; subst hl
-        refine ⟨(by decide : Dom []), ?_⟩
+        refine ⟨(fun c hc => by simp at hc : DomC P []), ?_⟩
         intro c hc
         simp only [List.mem_cons, List.not_mem_nil, or_false] at hc
         rcases hc with rfl | rfl | rfl
-        · exact ⟨(by decide : Valid (ofString "audit_conform.dict_name")), fun v hv => by
+        · exact ⟨All.lit hP (by decide : Printable10 (ofString "audit_conform.dict_name")), fun v hv => by
             simp only [List.mem_map] at hv; obtain ⟨s, hs, rfl⟩ := hv; exact (h.schemas s hs).1⟩
-        · exact ⟨(by decide : Valid (ofString "audit_conform.dict_version")), fun v hv => by
+        · exact ⟨All.lit hP (by decide : Printable10 (ofString "audit_conform.dict_version")), fun v hv => by
             simp only [List.mem_map] at hv; obtain ⟨s, hs, rfl⟩ := hv; exact (h.schemas s hs).2.1⟩
-        · exact ⟨(by decide : Valid (ofString "audit_conform.dict_location")), fun v hv => by
+        · exact ⟨All.lit hP (by decide : Printable10 (ofString "audit_conform.dict_location")), fun v hv => by
             simp only [List.mem_map] at hv; obtain ⟨s, hs, rfl⟩ := hv; exact (h.schemas s hs).2.2⟩
-  · exact Valid.joinWith (by decide) _ (fun x hx => by
+  · exact All.joinWith (All.lit hP (by decide)) _ (fun x hx => by
       simp only [List.mem_map] at hx
       obtain ⟨it, hit, rfl⟩ := hx
-      exact valid_item var it (h.items it hit))
+      exact all_item hP var it (h.items it hit))
 
-theorem valid_doc (comment : Str) (blocks : List (List Schema × Block)) (hc : Dom comment)
-    (h : ∀ ob ∈ blocks, BlockDom ob.1 ob.2) : Valid (docText comment blocks) := by
+theorem all_doc (comment : Str) (blocks : List (List Schema × Block)) (hc : DomC P comment)
+    (h : ∀ ob ∈ blocks, BlockDomP P ob.1 ob.2) : All P (docText comment blocks) := by
   unfold docText fileHeading writeMulti
-  refine ((show Valid [35, 92, 35, 67, 73, 70, 95, 49, 46, 49, 10] by decide).append
-    (valid_writeComment _ ?_)).append (Valid.joinWith (by decide) _ (fun x hx => by
+  refine ((All.lit hP (t := [35, 92, 35, 67, 73, 70, 95, 49, 46, 49, 10]) (by decide)).append ?_).append
+    (All.joinWith (All.lit hP (by decide)) _ (fun x hx => by
       simp only [List.mem_map] at hx
       obtain ⟨ob, hob, rfl⟩ := hx
-      exact valid_block _ ob.1 ob.2 (h ob hob)))
-  simp only [Variant.fixed, if_true]
-  exact valid_encode _ hc
+      exact all_block hP _ ob.1 ob.2 (h ob hob)))
+  simp only [Variant.current, if_true]
+  exact all_comment hP _ hc
+
+end CharSet2
+
+/-- the CIF 1.1 character set -/
+abbrev Valid (t : Str) : Prop := All validChar t
+abbrev Dom (t : Str) : Prop := DomP validChar t
+abbrev DomComment (t : Str) : Prop := DomC validChar t
+abbrev ChunkDom := ChunkDomP validChar
+abbrev LoopDom := LoopDomP validChar
+abbrev ItemDom := ItemDomP validChar
+abbrev SchemaDom := SchemaDomP validChar
+abbrev BlockDom := BlockDomP validChar
+
+theorem valid_doc (comment : Str) (blocks : List (List Schema × Block)) (hc : DomComment comment)
+    (h : ∀ ob ∈ blocks, BlockDom ob.1 ob.2) : Valid (docText comment blocks) :=
+  all_doc acceptsPrintable_validChar comment blocks hc h
 
 /-- the complete reader (`parseCif`: character set, tokenizer, parser) on a written document -/
-theorem parseCif_doc (comment : Str) (blocks : List (List Schema × Block)) (hc : Dom comment)
+theorem parseCif_doc (comment : Str) (blocks : List (List Schema × Block)) (hc : DomComment comment)
     (hd : ∀ ob ∈ blocks, BlockDom ob.1 ob.2) (h : ∀ ob ∈ blocks, BlockOk ob.1 ob.2)
     (hs : ∀ ob ∈ blocks, ∀ it ∈ ob.2.content, ItemShape it) :
     parseCif (docText comment blocks) = some (blocks.map (fun ob => blockP ob.1 ob.2)) := by
@@ -1407,7 +1500,6 @@ theorem parseCif_doc (comment : Str) (blocks : List (List Schema × Block)) (hc 
   unfold parseCif
   rw [if_pos hv, (piece_doc comment blocks h).tokenize]
   exact parse_docToks blocks hs
-
 
 /-! ## decidability of the hypotheses (for the non-vacuity examples) -/
 instance (s : Str) : Decidable (ValueOk s) := by unfold ValueOk; infer_instance
@@ -1419,12 +1511,12 @@ instance : (it : Item) → Decidable (ItemOk it)
   | .loop l => inferInstanceAs (Decidable (LoopOk l))
 instance (s : Schema) : Decidable (SchemaOk s) := by unfold SchemaOk; infer_instance
 instance (l : Loop) : Decidable (LoopShape l) := by unfold LoopShape; infer_instance
-instance (c : Chunk) : Decidable (ChunkDom c) := by unfold ChunkDom; infer_instance
-instance (l : Loop) : Decidable (LoopDom l) := by unfold LoopDom; infer_instance
-instance : (it : Item) → Decidable (ItemDom it)
-  | .chunk c => inferInstanceAs (Decidable (ChunkDom c))
-  | .loop l => inferInstanceAs (Decidable (LoopDom l))
-instance (s : Schema) : Decidable (SchemaDom s) := by unfold SchemaDom; infer_instance
+instance (P : Nat → Bool) (c : Chunk) : Decidable (ChunkDomP P c) := by unfold ChunkDomP; infer_instance
+instance (P : Nat → Bool) (l : Loop) : Decidable (LoopDomP P l) := by unfold LoopDomP; infer_instance
+instance (P : Nat → Bool) : (it : Item) → Decidable (ItemDomP P it)
+  | .chunk c => inferInstanceAs (Decidable (ChunkDomP P c))
+  | .loop l => inferInstanceAs (Decidable (LoopDomP P l))
+instance (P : Nat → Bool) (s : Schema) : Decidable (SchemaDomP P s) := by unfold SchemaDomP; infer_instance
 instance : (it : Item) → Decidable (ItemShape it)
   | .chunk _ => inferInstanceAs (Decidable True)
   | .loop l => inferInstanceAs (Decidable (LoopShape l))
